@@ -281,6 +281,12 @@ class NTuple(Collection):
         )
 
     def __getitem__(self, index: int) -> NadaType:
+        if not isinstance(index, int):
+            raise TypeError(
+                f"NTuple indices must be integers, not {type(index).__name__}"
+            )
+        # A bool is an int in Python (t[True] is t[1]): record the position it denotes.
+        index = int(index)
         if index < 0 or index >= len(self.values):
             raise IndexError(f"Invalid index {index} for NTuple.")
 
